@@ -27,7 +27,7 @@ SPEC = os.path.join(C.VERIF, "spec", "embed")
 HARNESS = os.path.join(C.VERIF, "harness", "c16", "zz_verif_c16_test.go")
 JAVA = "-Xss64m -Xmx6g -XX:ParallelGCThreads=4"
 
-ALL_NAMES = "{1,2,3,4,5,6,7,8,9,10,11,12}"
+ALL_NAMES = "{1,2,3,4,5,6,7,8,9,10,11,12,13}"
 CLASSES = "SNMDBIE"
 
 
@@ -621,7 +621,7 @@ def check(chk):
     thorough = chk.tier == "thorough"
     sd = C.seed()
     rd = chk.rd.path
-    chk.cov["rule"] = ("case = (package directory tree, pattern list): every tree TLC builds within the bounds (<= 4 nodes over 12 "
+    chk.cov["rule"] = ("case = (package directory tree, pattern list): every tree TLC builds within the bounds (<= 4 nodes over 13 "
                        "rule-hitting names at depth <= 2; <= 5 and <= 6 nodes over reduced alphabets at depth <= 3; kinds file, "
                        "directory, nested module, symlink to file/directory; quick: a seeded slice plus all trees of <= 2 nodes) "
                        "x 65 single patterns and 256 ordered pairs over 16 of them; each case is replayed into ResolvePatterns "
